@@ -493,6 +493,7 @@ type tr struct {
 	entryReach string
 	entryHeapsInl map[string]string
 	inlineN   int
+	mapGetDecl map[string]bool
 	epoch     int // allocation clock: objects known at a point have born <= epoch there, later allocations born > it
 
 	defers []*deferRec
@@ -559,6 +560,25 @@ func (t *tr) fresh(prefix, sort string) string {
 	return n
 }
 
+// mapGetFn declares (once per script) the lookup function of maps with key sort ks and element sort vs.
+func (t *tr) mapGetFn(ks, vs string) string {
+	root := t
+	for root.parent != nil {
+		root = root.parent
+	}
+	fn := "mapget_" + ks + "_" + vs
+	if root.mapGetDecl == nil {
+		root.mapGetDecl = map[string]bool{}
+	}
+	if !root.mapGetDecl[fn] {
+		root.mapGetDecl[fn] = true
+		K, V := smtSort(ks), smtSort(vs)
+		fmt.Fprintf(&root.decls, "(declare-fun %s ((Array Int (Array %s Bool)) (Array Int (Array %s %s)) Int %s) %s)\n", fn, K, K, V, K, V)
+		fmt.Fprintf(&root.decls, "(assert (forall ((d (Array Int (Array %s Bool))) (v (Array Int (Array %s %s))) (m Int) (k %s)) (! (= (%s d v m k) (ite (and (not (= m 0)) (select (select d m) k)) (select (select v m) k) %s)) :pattern ((%s d v m k)))))\n", K, K, V, K, fn, zeroOf(vs), fn)
+	}
+	return fn
+}
+
 // regPtr records a reference that denotes an object known at this point (allocated no later than now). Everything that
 // is allocated afterwards (newRef, fresh results of callees) gets a larger allocation stamp, hence is a different
 // object: one fact per reference instead of one per pair.
@@ -612,7 +632,7 @@ func (t *tr) heapSortOf(name string) string {
 
 func ghostValSort(v string) string {
 	switch v {
-	case "bool", "int", "str", "seq", "iface", "loc", "slice":
+	case "bool", "int", "str", "seq", "iface", "loc", "slice", "f32", "f64":
 		return v
 	case "ref":
 		return "int"
@@ -1017,7 +1037,7 @@ func (t *tr) typeFacts(guard, term string, ty types.Type) {
 		t.assume(guard, fmt.Sprintf("(and (<= 0 (soff %s)) (<= 0 (slen %s)) (<= (slen %s) (scap %s)) (<= (scap %s) 72057594037927936) (=> (> (scap %s) 0) (> (sref %s) 0)) (>= (sref %s) 0) (=> (= (sref %s) 0) (= %s nullslice)))", term, term, term, term, term, term, term, term, term, term))
 		// typed memory: a []E can only point into an object that holds cells of type E
 		if !t.eng.arrayElem[types.TypeString(u.Elem(), nil)] {
-			t.assume(guard, fmt.Sprintf("(=> (or (> (scap %s) 0) (> (sref %s) 0)) (= (styp %s) %d))", term, term, term, t.eng.sliceTag(ty)))
+			t.assume(guard, fmt.Sprintf("(=> (> (scap %s) 0) (= (styp %s) %d))", term, term, t.eng.sliceTag(ty)))
 		} else {
 			t.assume(guard, fmt.Sprintf("(=> (> (scap %s) 0) (okslice_%d (styp %s)))", term, t.eng.elemIndex(u.Elem()), term))
 		}
